@@ -346,7 +346,8 @@ StringBuilder::Buffer StringBuilder::grow(std::size_t n) {
 	}
 	else if (bft == Buf && (buf_.free() >= n || (tag() & Own) == 0u)) {
 		ret = buf_;
-		if ((buf_.used += n) > buf_.size) {
+		if (n <= buf_.free()) { buf_.used += n; }
+		else {
 			errno = ERANGE;
 			buf_.used = buf_.size;
 		}
